@@ -18,10 +18,11 @@ TRound   == IsEvent("round")   /\ DRound(E.X, E.vec, E.disk, E.zero, E.payloadOk
 TSetBase == IsEvent("setbase") /\ DSetBase(E.file)
 TSameBase == IsEvent("samebase") /\ DSameBase(E.file)
 TFinish  == IsEvent("finish")  /\ DFinish(E.valRet, E.eqB, E.sized)
+TTool    == IsEvent("toolrun") /\ DToolRun(E.status, E.eqB, E.X, E.wholeChunks, E.disk, E.usable, E.sized)
 TCrash   == IsEvent("killed")  /\ DCrash
 
 Init == DInit /\ l = 1
-Next == TBegin \/ TStart \/ TScan \/ TScanF \/ TCopy \/ TCopyF \/ TFindM \/ TReset \/ TRound \/ TSetBase \/ TSameBase \/ TFinish \/ TCrash
+Next == TBegin \/ TStart \/ TScan \/ TScanF \/ TCopy \/ TCopyF \/ TFindM \/ TReset \/ TRound \/ TSetBase \/ TSameBase \/ TFinish \/ TTool \/ TCrash
 Spec == Init /\ [][Next]_tvars
 Accepted == /\ PrintT(<<"MATCHED", TLCGet("stats").diameter - 1, Len(TraceLog)>>)
             /\ TLCGet("stats").diameter - 1 = Len(TraceLog)
